@@ -840,6 +840,11 @@ impl Property for C19 {
         out
     }
 
+    /// every operation must return its token
+    fn crash_is_violation() -> bool {
+        true
+    }
+
     fn meta() -> Meta {
         Meta {
             level: "exploration",
